@@ -521,8 +521,8 @@ def report(prop, tier, engines, seed, recs, crashed, bins, tmp, t0, build_s, pla
             pl = r["plan"]
             samples.append({"seed": r["seed"], "steps": r.get("steps"), "sim_seconds": round(r.get("sim_ns", 0) / 1e9, 2),
                             "plan_digest": {k: pl.get(k) for k in ("profile", "stab", "fix", "pred", "sched", "net") if k in pl},
-                            "nodes": [{"id": n.get("id"), "ops": [o.get("kind") for o in n.get("ops", [])]} for n in (pl.get("nodes") or [])][:12] if isinstance(pl.get("nodes"), list) else None,
-                            "clients": [[o.get("kind") for o in c.get("ops", [])][:12] for c in pl.get("clients")][:4] if isinstance(pl.get("clients"), list) else pl.get("clients"),
+                            "nodes": [{"id": n.get("id"), "ops": [o.get("kind") for o in (n.get("ops") or [])]} for n in (pl.get("nodes") or [])][:12] if isinstance(pl.get("nodes"), list) else None,
+                            "clients": [[o.get("kind") for o in (c.get("ops") or [])][:12] for c in pl.get("clients") if isinstance(c, dict)][:4] if isinstance(pl.get("clients"), list) else pl.get("clients"),
                             "servers": pl.get("servers"),
                             "store_plan": {k: pl.get(k) for k in ("backend", "hash", "alphabet", "tasks") if k in pl},
                             "ops": [(o.get("kind"), o.get("key"), o.get("val")) for o in (pl.get("ops") or [])][:25] if isinstance(pl.get("ops"), list) else None,
